@@ -1155,55 +1155,50 @@ theorem C17_labels_from_source (cfg : ScrapeCfg) (src : List (List Char)) (body 
 
 /-! ### parameters of every kind -/
 
-/-- **one input per parameter of whatever kind**: the preview lists every parameter, in order, with its
-default; with the repair exactly the definitions with a reserved name or a variadic parameter are refused;
-the pinned code refuses by name only. -/
+/-- **one input per parameter of whatever kind**: the preview exists exactly when no parameter is refused, and then
+lists every parameter, in order, with its default; a parameter is refused for a name among the keywords of
+`Node.__init__`, and — with the repairs — for a name among the keywords of `Node.run` and for being variadic. -/
 theorem C17_inputs_kinds (cfg : KindCfg) (ps : List KParam) :
     (∀ pin, previewKinds cfg ps = .ok pin →
-      pin = ps.map (fun p => (p.name, p.dflt.getD .nd)) ∧
-      (∀ p ∈ ps, initKeywords.contains p.name = false) ∧
-      (cfg.variadicByName = false → ∀ p ∈ ps, p.kind.variadic = false)) ∧
-    ((∀ p ∈ ps, initKeywords.contains p.name = false) →
-      (cfg.variadicByName = true ∨ ∀ p ∈ ps, p.kind.variadic = false) →
-      previewKinds cfg ps = .ok (ps.map fun p => (p.name, p.dflt.getD .nd))) := by
-  induction ps with
-  | nil => simp [previewKinds]
-  | cons p ps ih =>
-    refine ⟨?_, ?_⟩
-    · intro pin h
+      pin = ps.map (fun p => (p.name, p.dflt.getD .nd)) ∧ ∀ p ∈ ps, p.refusal cfg = none) ∧
+    ((∀ p ∈ ps, p.refusal cfg = none) →
+      previewKinds cfg ps = .ok (ps.map fun p => (p.name, p.dflt.getD .nd))) ∧
+    (∀ p : KParam, p.refusal cfg = none ↔
+      (initKeywords.contains p.name = false ∧ (cfg.runNamesFree = false → runKeywords.contains p.name = false) ∧
+       (cfg.variadicByName = false → p.kind.variadic = false))) := by
+  refine ⟨?_, ?_, ?_⟩
+  · induction ps with
+    | nil => intro pin h; simp [previewKinds] at h; subst h; simp
+    | cons p ps ih =>
+      intro pin h
       simp only [previewKinds] at h
-      split at h
-      · cases h
-      · rename_i hres
-        split at h
-        · cases h
-        · rename_i hvar
-          cases hr : previewKinds cfg ps with
-          | error e => simp [hr, Except.map] at h
-          | ok r =>
-            simp only [hr, Except.map, Except.ok.injEq] at h
-            obtain ⟨e1, e2, e3⟩ := ih.1 r hr
-            refine ⟨by rw [← h, e1]; rfl, ?_, ?_⟩
-            · intro q hq
-              simp only [List.mem_cons] at hq
-              rcases hq with rfl | hq
-              · simpa using hres
-              · exact e2 q hq
-            · intro hc q hq
-              simp only [List.mem_cons] at hq
-              rcases hq with rfl | hq
-              · simpa [hc] using hvar
-              · exact e3 hc q hq
-    · intro hres hvar
-      have h1 : initKeywords.contains p.name = false := hres p (by simp)
-      have h2 : (!cfg.variadicByName && p.kind.variadic) = false := by
-        rcases hvar with h | h
-        · simp [h]
-        · simp [h p (by simp)]
-      simp only [previewKinds, h1, h2, List.map_cons]
-      rw [ih.2 (fun q hq => hres q (List.mem_cons_of_mem _ hq))
-        (hvar.imp id fun h q hq => h q (List.mem_cons_of_mem _ hq))]
-      simp [Except.map]
+      cases hr : p.refusal cfg with
+      | some e => simp [hr] at h
+      | none =>
+        simp only [hr] at h
+        cases hp : previewKinds cfg ps with
+        | error e => simp [hp, Except.map] at h
+        | ok r =>
+          simp only [hp, Except.map, Except.ok.injEq] at h
+          obtain ⟨e1, e2⟩ := ih r hp
+          refine ⟨by rw [← h, e1]; rfl, ?_⟩
+          intro q hq
+          simp only [List.mem_cons] at hq
+          rcases hq with rfl | hq
+          · exact hr
+          · exact e2 q hq
+  · induction ps with
+    | nil => intro _; rfl
+    | cons p ps ih =>
+      intro h
+      simp only [previewKinds, h p (by simp), List.map_cons]
+      rw [ih fun q hq => h q (List.mem_cons_of_mem _ hq)]
+      rfl
+  · intro p
+    unfold KParam.refusal
+    cases h1 : initKeywords.contains p.name <;> cases h2 : cfg.runNamesFree <;>
+      cases h3 : runKeywords.contains p.name <;> cases h4 : cfg.variadicByName <;>
+      cases h5 : p.kind.variadic <;> simp
 
 /-- **binding over all parameter kinds**: for every signature of positional-only, positional-or-keyword and
 keyword-only parameters, whenever Python's own (kind-aware) binder binds `vs` for the two splits, the node —
@@ -1226,7 +1221,7 @@ Python's call binds `vs`, the node run processes exactly the object `F vs` the f
 def KindsStatement (cfg : KindCfg) : Prop :=
   ∀ (ps : List KParam) (outs : List String) (F : List Val → Val)
     (a1 : List Val) (k1 : List (String × Val)) (a2 : List Val) (k2 : List (String × Val)),
-    (∀ p ∈ ps, p.kind.variadic = false) →
+    (∀ p ∈ ps, p.kind.variadic = false) → (∀ p ∈ ps, runKeywords.contains p.name = false) →
     (ps.map (·.name)).Nodup → (k1.map (·.1)).Nodup → (k2.map (·.1)).Nodup →
     DataSig (sigOf ps) → DataVals a1 k1 → DataVals a2 k2 →
     ∀ vs, pyArgsK ps a1 k1 a2 k2 = .ok vs →
@@ -1238,13 +1233,14 @@ theorem C17_run_kinds_partial (cfg : KindCfg) (ps : List KParam)
     (hyp : cfg.posOnlyByKeyword = false ∨ ∀ p ∈ ps, p.kind ≠ .posOnly)
     (outs : List String) (F : List Val → Val)
     (a1 : List Val) (k1 : List (String × Val)) (a2 : List Val) (k2 : List (String × Val))
-    (hv : ∀ p ∈ ps, p.kind.variadic = false)
+    (hv : ∀ p ∈ ps, p.kind.variadic = false) (hrun : ∀ p ∈ ps, runKeywords.contains p.name = false)
     (hnd : (ps.map (·.name)).Nodup) (hk1 : (k1.map (·.1)).Nodup) (hk2 : (k2.map (·.1)).Nodup)
     (hs : DataSig (sigOf ps)) (hd1 : DataVals a1 k1) (hd2 : DataVals a2 k2)
     (vs : List Val) (hp : pyArgsK ps a1 k1 a2 k2 = .ok vs) :
     ∃ n1 n2, construct (mkNode (sigOf ps) outs) a1 k1 = .ok n1 ∧
       callK cfg F ps n1 a2 k2 = finish n2 (F vs) ∧ n2.outs = outs.map fun l => (l, Val.nd) := by
   obtain ⟨n1, g, hc, hg, _, _, ho⟩ := C17_bind_kinds ps outs a1 k1 a2 k2 hnd hk1 hk2 hs hd1 hd2 vs hp
+  obtain ⟨hclash, hfilter⟩ := runKeywords_pass ps k2 (pyArgsK_keys ps a1 k1 a2 k2 vs hp) hrun
   refine ⟨n1, g, hc, ?_, ho⟩
   have h1 : (cfg.posOnlyByKeyword && ps.any (fun p => p.kind == .posOnly)) = false := by
     rcases hyp with h | h
@@ -1260,19 +1256,20 @@ theorem C17_run_kinds_partial (cfg : KindCfg) (ps : List KParam)
     rw [e] at this
     cases this
   unfold callK
+  simp only [hclash, Bool.false_eq_true, if_false, hfilter]
   rw [hg]
   simp [h1, h2]
 
 theorem C17_run_kinds_repaired : KindsStatement KindCfg.repaired := by
-  intro ps outs F a1 k1 a2 k2 hv hnd hk1 hk2 hs hd1 hd2 vs hp
-  exact C17_run_kinds_partial KindCfg.repaired ps (Or.inl rfl) outs F a1 k1 a2 k2 hv hnd hk1 hk2 hs hd1 hd2 vs hp
+  intro ps outs F a1 k1 a2 k2 hv hrun hnd hk1 hk2 hs hd1 hd2 vs hp
+  exact C17_run_kinds_partial KindCfg.repaired ps (Or.inl rfl) outs F a1 k1 a2 k2 hv hrun hnd hk1 hk2 hs hd1 hd2 vs hp
 
 /-- `def f(a, /): return r` — Python's `f(1)` binds `[1]`; the pinned node takes the 1 and then calls
 `f(a=1)`, which Python refuses: the node of a function with a positional-only parameter can never run -/
 theorem C17_run_kinds_witness : ¬ KindsStatement KindCfg.pinned := by
   intro h
   obtain ⟨n1, n2, hc, hcall, _⟩ := h [⟨"a", .posOnly, none⟩] ["r"] (fun vs => .node "app0" [] vs)
-    [] [] [.atom "i1"] [] (by decide) (by decide) (by simp) (by simp)
+    [] [] [.atom "i1"] [] (by decide) (by decide) (by decide) (by simp) (by simp)
     (by intro p hp v hv; simp [sigOf] at hp; subst hp; simp at hv)
     ⟨by simp, by simp⟩ ⟨by simp [Val.isData], by simp⟩ [.atom "i1"] rfl
   have e : n1 = mkNode (sigOf [⟨"a", .posOnly, none⟩]) ["r"] := by
@@ -1285,6 +1282,35 @@ theorem C17_run_kinds_witness : ¬ KindsStatement KindCfg.pinned := by
   rw [hcall] at hl
   unfold finish at hl
   split at hl <;> cases hl
+
+/-- what the property demands of parameter NAMES: a definition that becomes a node class has no parameter called
+like a keyword of `Node.run` — such a parameter could not be given its value by keyword at call time -/
+def RunNamesStatement (cfg : KindCfg) : Prop :=
+  ∀ ps pin, previewKinds cfg ps = .ok pin → ∀ p ∈ ps, runKeywords.contains p.name = false
+
+theorem C17_run_names_repaired : RunNamesStatement KindCfg.repaired := by
+  intro ps pin h p hp
+  have hr := ((C17_inputs_kinds KindCfg.repaired ps).1 pin h).2 p hp
+  exact (((C17_inputs_kinds KindCfg.repaired ps).2.2 p).mp hr).2.1 rfl
+
+/-- `def f(x, fetch_input=2)`: the pinned preview makes it a node class; Python's `f(1, fetch_input=5)` binds
+`[1, 5]`, the node's call collides with the `fetch_input=True` that `pull` writes (`TypeError`, nothing set);
+and for `def g(x, raise_run_exceptions=2)` the caller's 5 is taken for the run flag: the body gets the default -/
+theorem C17_run_names_witness :
+    ¬ RunNamesStatement KindCfg.pinned ∧
+    pyArgsK [⟨"x", .posOrKw, none⟩, ⟨"fetch_input", .posOrKw, some (.atom "i2")⟩] [] [] [.atom "i1"] [("fetch_input", .atom "i5")]
+      = .ok [.atom "i1", .atom "i5"] ∧
+    (callK KindCfg.pinned (fun vs => .node "app0" [] vs) [⟨"x", .posOrKw, none⟩, ⟨"fetch_input", .posOrKw, some (.atom "i2")⟩]
+      (mkNode (sigOf [⟨"x", .posOrKw, none⟩, ⟨"fetch_input", .posOrKw, some (.atom "i2")⟩]) ["r"])
+      [.atom "i1"] [("fetch_input", .atom "i5")]).2 = .typeError ∧
+    (callK KindCfg.pinned (fun vs => .node "app0" [] vs) [⟨"x", .posOrKw, none⟩, ⟨"raise_run_exceptions", .posOrKw, some (.atom "i2")⟩]
+      (mkNode (sigOf [⟨"x", .posOrKw, none⟩, ⟨"raise_run_exceptions", .posOrKw, some (.atom "i2")⟩]) ["r"])
+      [.atom "i1"] [("raise_run_exceptions", .atom "i5")]).2 = .ret (.node "app0" [] [.atom "i1", .atom "i2"]) := by
+  refine ⟨?_, rfl, rfl, rfl⟩
+  intro h
+  have := h [⟨"fetch_input", .posOrKw, none⟩] [("fetch_input", .nd)] rfl ⟨"fetch_input", .posOrKw, none⟩ (by simp)
+  revert this
+  decide
 
 /-- variadics: the pinned preview refuses `*args` / `**kwargs` by their NAMES only — `def g(a, *rest)` gets an
 input `rest` that no value can satisfy (`g(rest=…)` is an unexpected keyword); the repaired one refuses every
@@ -1432,6 +1458,42 @@ theorem C17_factory_cached_witness :
      (b.2.1.cell (b.1.headD 0)).map (·.length) = some 3 ∧ b.1.headD 0 = a.1.headD 0) := by
   decide
 
+/-- **the sameness test of the registry must not be coarser than the definitions**: if two defining objects that
+the test takes for the same always build the same class, every request of every session gets the class of its
+own definition -/
+theorem C17_class_per_definition_by {α : Type} (same : Nat → Nat → Bool) (mk : Nat → α)
+    (hs : ∀ a b, same a b = true → mk a = mk b) (reg : List (RegEntry α)) (hr : ∀ e ∈ reg, e.cls = mk e.ident)
+    (reqs : List (String × Nat)) : classesForBy same mk reg reqs = reqs.map fun r => mk r.2 := by
+  induction reqs generalizing reg with
+  | nil => rfl
+  | cons r rest ih =>
+    obtain ⟨name, ident⟩ := r
+    simp only [classesForBy, List.map_cons]
+    unfold classForBy
+    cases hf : reg.find? (fun e => e.name == name && same e.ident ident) with
+    | some e =>
+      have hm := List.mem_of_find?_eq_some hf
+      have hp := List.find?_some hf
+      simp only [Bool.and_eq_true] at hp
+      simp only
+      rw [ih reg hr, hr e hm, hs _ _ hp.2]
+    | none =>
+      simp only
+      rw [ih _ (by
+        intro e he
+        simp only [List.mem_cons] at he
+        rcases he with rfl | he
+        · rfl
+        · exact hr e he)]
+
+/-- `==` on the defaults is coarser: `0.0 == -0.0` (and their hashes agree), so with defaults compared by `==` the
+specification `{"s": (None, -0.0)}` (object 1) asked after `{"s": (None, 0.0)}` (object 0) gets the class — and
+the default — of the first; compared by what they ARE, each gets its own -/
+theorem C17_class_same_by_eq_witness :
+    classesForBy (fun a b => a / 2 == b / 2) id [] [("InputsToDict7", 0), ("InputsToDict7", 1)] = [0, 0] ∧
+    classesForBy (fun a b => a == b) id [] [("InputsToDict7", 0), ("InputsToDict7", 1)] = [0, 1] := by
+  decide
+
 end PwVerif.C17
 
 #print axioms PwVerif.C17.C17_bind
@@ -1487,3 +1549,7 @@ end PwVerif.C17
 #print axioms PwVerif.C17.C17_preview_inherited_witness
 #print axioms PwVerif.C17.C17_factory_per_instance
 #print axioms PwVerif.C17.C17_factory_cached_witness
+#print axioms PwVerif.C17.C17_run_names_repaired
+#print axioms PwVerif.C17.C17_run_names_witness
+#print axioms PwVerif.C17.C17_class_per_definition_by
+#print axioms PwVerif.C17.C17_class_same_by_eq_witness
